@@ -446,16 +446,26 @@ def range_word_lists(draw):
 def bit_passes(draw, max_channels=MAX_CHANNELS, max_frames=200, min_frames=1, min_channels=1):
     n = draw(st.one_of(st.integers(min_channels, min(max_channels, 4)), st.integers(min_channels, max_channels),
                        st.just(max_channels)))
-    fkind = draw(st.integers(0, 9))
+    fkind = draw(st.integers(0, 10))
+    blocks = None
     if fkind <= 5:
         frames = draw(st.integers(min_frames, max(min_frames, min(40, max_frames))))
     elif fkind <= 8:
         frames = draw(st.integers(min_frames, max(min_frames, max_frames)))
+    elif fkind == 9 and max_frames * n >= 1024:
+        # one data set of >= 4096 bytes (real files use 640 byte sets; nothing in the format limits the size)
+        big = draw(st.integers(-(-1024 // n), min(max_frames, max(-(-1024 // n), 2048 // n))))
+        rest = draw(st.integers(0, 5))
+        frames = big + rest
+        blocks = [big] + ([rest] if rest else [])
+        if draw(st.booleans()):
+            blocks.reverse()
     else:
         frames = min_frames
     # keep the volume of a pass bounded (4000 words) so that cases stay cheap
-    frames = max(min_frames, min(frames, max(1, 4000 // n)))
-    blocks = draw(block_patterns(frames))
+    if blocks is None:
+        frames = max(min_frames, min(frames, max(1, 4000 // n)))
+        blocks = draw(block_patterns(frames))
     data = [draw(ibm_word_lists(frames)) for _ in range(n)]
     plain = draw(st.booleans())
     return {
